@@ -59,6 +59,7 @@ type Tokenizer struct {
 	str              string
 	isLast           bool
 	last             rune
+	lastIsSlash      bool
 	tok              chan Token
 	tokenAvail       int
 	token            [2]Token
@@ -329,80 +330,79 @@ func (t *Tokenizer) parseOperator() (string, bool) {
 	}
 }
 
-func (t *Tokenizer) peek(skipComment bool) rune {
-	if t.isLast {
-		return t.last
-	}
-	if len(t.str) == 0 {
-		t.last = EOF
-		return EOF
-	}
-	var size int
-	t.last, size = utf8.DecodeRuneInString(t.str)
+// startsCommentBody returns true if s, the text following a slash, continues the
+// opening of a comment.
+func startsCommentBody(s string) bool {
+	return len(s) > 0 && (s[0] == '/' || s[0] == '*')
+}
 
-	if t.allowComments && skipComment {
-		if t.last == '/' && len(t.str) > size {
-			s, l := utf8.DecodeRuneInString(t.str[size:])
-			if s == '/' {
-				t.str = t.str[size+l:]
-				for {
-					s, l := utf8.DecodeRuneInString(t.str)
-					if s != '\n' && s != '\r' {
-						t.str = t.str[l:]
-						if len(t.str) == 0 {
-							return EOF
-						}
-					} else {
-						break
-					}
-				}
-				t.last, size = utf8.DecodeRuneInString(t.str)
-			} else if s == '*' {
-				t.str = t.str[size+l:]
-				for {
-					s, l := utf8.DecodeRuneInString(t.str)
-					if s == '*' && len(t.str) > l {
-						s, l2 := utf8.DecodeRuneInString(t.str[l:])
-						if s == '/' {
-							t.str = t.str[l+l2:]
-							if len(t.str) == 0 {
-								return EOF
-							}
-							break
-						} else {
-							t.str = t.str[l:]
-						}
-					} else {
-						if s == '\n' {
-							t.line++
-						}
-						t.str = t.str[l:]
-						if len(t.str) == 0 {
-							return EOF
-						}
-					}
-				}
-				t.last, size = utf8.DecodeRuneInString(t.str)
+// skipCommentBody skips a comment. The opening slash is already consumed,
+// t.str starts with the second character of the comment's opening.
+func (t *Tokenizer) skipCommentBody() {
+	if t.str[0] == '/' {
+		// end of line comment, the line break is not part of the comment
+		for len(t.str) > 0 && t.str[0] != '\n' && t.str[0] != '\r' {
+			t.str = t.str[1:]
+		}
+	} else {
+		t.str = t.str[1:]
+		for len(t.str) > 0 {
+			if strings.HasPrefix(t.str, "*/") {
+				t.str = t.str[2:]
+				return
 			}
+			if t.str[0] == '\n' {
+				t.line++
+			}
+			t.str = t.str[1:]
 		}
 	}
+}
 
-	switch t.last {
-	case '•':
-		t.last = '*'
-	case '×':
-		t.last = '*'
-	case '÷':
-		t.last = '/'
-	case '–':
-		t.last = '-'
-	case 'ˆ':
-		t.last = '^'
+func (t *Tokenizer) peek(skipComment bool) rune {
+	if t.isLast {
+		if !(t.allowComments && skipComment && t.lastIsSlash && startsCommentBody(t.str)) {
+			return t.last
+		}
+		// The buffered slash was read while comments were not looked for (e.g. at
+		// reading an operator, a number or an identifier), but it opens a comment.
+		t.isLast = false
+		t.skipCommentBody()
 	}
+	for {
+		if len(t.str) == 0 {
+			t.last = EOF
+			t.lastIsSlash = false
+			return EOF
+		}
+		var size int
+		t.last, size = utf8.DecodeRuneInString(t.str)
+		t.lastIsSlash = t.last == '/'
 
-	t.isLast = true
-	t.str = t.str[size:]
-	return t.last
+		if t.allowComments && skipComment && t.lastIsSlash && startsCommentBody(t.str[size:]) {
+			t.str = t.str[size:]
+			t.skipCommentBody()
+			// there may be a further comment right behind this one
+			continue
+		}
+
+		switch t.last {
+		case '•':
+			t.last = '*'
+		case '×':
+			t.last = '*'
+		case '÷':
+			t.last = '/'
+		case '–':
+			t.last = '-'
+		case 'ˆ':
+			t.last = '^'
+		}
+
+		t.isLast = true
+		t.str = t.str[size:]
+		return t.last
+	}
 }
 
 func (t *Tokenizer) consume(skipComment bool) {
@@ -423,7 +423,8 @@ func (t *Tokenizer) next(skipComment bool) rune {
 }
 
 func (t *Tokenizer) read(valid func(c rune) bool) string {
-	return t.readSkip(valid, true)
+	// a comment ends a number or an identifier, it is not skipped inside of it
+	return t.readSkip(valid, false)
 }
 
 func (t *Tokenizer) readSkip(valid func(c rune) bool, skipComment bool) string {
